@@ -25,6 +25,7 @@ fn scenarios() -> Vec<Scn> {
         Scn { name: "S6-dir", files: vec!["l0.l=1", "d.a.l=5", "t.n=D:d L:l0"], loads: vec!["load N t"], touched: vec!["t.n", "l0.l"] },
         Scn { name: "S7-panicking-leaf", files: vec!["b.p=7", "l0.l=1", "t.n=X:b L:l0"], loads: vec!["load N t"], touched: vec!["t.n", "b.p", "l0.l"] },
         Scn { name: "S8-caught-panic", files: vec!["b.p=7", "l1.l=2", "t.n=p:b L:l1"], loads: vec!["load N t"], touched: vec!["t.n", "b.p", "l1.l"] },
+        Scn { name: "S14-panicking-leaf-and-independent-assets", files: vec!["b.p=7", "l0.l=1", "l1.l=2", "t.n=L:l1"], loads: vec!["load P b", "load L l0", "load N t"], touched: vec!["b.p", "l0.l", "l1.l", "t.n"] },
         Scn { name: "S9-recdir", files: vec!["d.a.l=5", "d.sub.c.l=7"], loads: vec!["load RecL d"], touched: vec![] },
         Scn { name: "S10-owned", files: vec!["l0.l=1"], loads: vec!["owned L l0"], touched: vec!["l0.l"] },
         Scn { name: "S12-two-owned-in-node", files: vec!["l0.l=1", "l1.l=2", "t.n=O:l0 O:l1"], loads: vec!["load N t"], touched: vec!["t.n", "l0.l", "l1.l"] },
@@ -170,6 +171,33 @@ pub fn run(args: &Args) -> SubResult {
                 ops.push("hr".into());
                 ops.extend(tail(s));
                 run(res, ops, format!("reload: read of {f} fails with {kind}"));
+            }
+            // a loader panic inside a BATCH: the other notified assets of the same pass must still be
+            // reloaded (the panic is contained per asset, not per pass)
+            if f.ends_with(".p") {
+                for order in 0..2 {
+                    let mut ops = loads.clone();
+                    ops.push(format!("put {f} boom"));
+                    let mut entries = vec![format!("F:{f}")];
+                    for (j, f2) in s.touched.iter().enumerate() {
+                        if f2 != f {
+                            let g = good(f2, 70 + j);
+                            if !g.is_empty() {
+                                ops.push(g);
+                            }
+                            entries.push(format!("F:{f2}"));
+                        }
+                    }
+                    if order == 1 {
+                        entries.reverse();
+                    }
+                    ops.push(format!("evb {}", entries.join(",")));
+                    ops.push("hr".into());
+                    ops.push(format!("put {f} 9"));
+                    ops.push(format!("ev F:{f}"));
+                    ops.push("hr".into());
+                    run(res, ops, format!("reload: {f} panics inside a batch with the other entries (order {order})"));
+                }
             }
             // the fault is transient and NOT followed by a new notification of the faulted entry:
             // every other entry the assets read must still trigger them (later entries first)
